@@ -151,6 +151,15 @@ def fp_rates(fp):
     return out, '\n'.join(other)
 
 
+def add_eval(ops, rng, text):
+    """one evaluation of `text`: through execute, or through the long-lived session of the history"""
+    if rng.random() < 0.33:
+        ops.append({'op': 'session_set_text', 's': 1, 'text': text})
+        ops.append({'op': 'execute_session', 's': 1, 'via_session': True})
+    else:
+        ops.append({'op': 'execute', 'lang': 'en', 'text': text})
+
+
 def run_shard(ctx):
     rng = ctx.rng
     res = ctx.res
@@ -165,6 +174,9 @@ def run_shard(ctx):
         cfg = mon.cfg_with(dec=sep[0], thou=sep[1])
         rates = Rates()
         ops = [{'op': 'new_calc', 'seg': True}] + mon.gh.config_ops(cfg, seg=False)
+        # a Session object that lives as long as the calculator: a third of the evaluations go through it ("a changed rate takes
+        # effect in all later evaluations" - also in those of a session that converted the currency before the change)
+        ops += [{'op': 'session_new', 's': 1}, {'op': 'session_set_language', 's': 1, 'lang': 'en'}]
         meta = {}
         n_hist = rng.randint(30, 300)
         pending_fp = None
@@ -201,7 +213,7 @@ def run_shard(ctx):
                         a, b = (code, other) if rng.random() < 0.5 else (other, code)
                         xs = rng.choice(AMOUNTS)
                         text = '%s %s to %s' % (render_literal(xs, sep), a, b)
-                        ops.append({'op': 'execute', 'lang': 'en', 'text': text})
+                        add_eval(ops, rng, text)
                         meta[len(ops) - 1] = ('eval', text, 'after-update', ('money', b, rates.convert(Fraction(xs), a, b), abs(rates.convert(Fraction(xs), a, b))), rates.version)
             elif rng.random() < 0.1:
                 # one and the same currency - rated or not - needs no rate: literal, identity conversion, + - / and scaling
@@ -223,13 +235,13 @@ def run_shard(ctx):
                 else:
                     n = rng.choice(['2', '3', '10', '7'])
                     text, exp = '%s * %s' % (sp(xs), n), ('money', c, X * Fraction(n), abs(X * Fraction(n)))
-                ops.append({'op': 'execute', 'lang': 'en', 'text': text})
+                add_eval(ops, rng, text)
                 meta[len(ops) - 1] = ('eval', text, 'same-currency' + ('' if c in BASE_RATED else ':no-rate'), exp, rates.version)
                 res.cover('currency in same-currency operations', c, len(all_codes))
             else:
                 del COV[:]
                 text, cls, exp = gen_case(rng, rates, sep, aliases, targets)
-                ops.append({'op': 'execute', 'lang': 'en', 'text': text})
+                add_eval(ops, rng, text)
                 meta[len(ops) - 1] = ('eval', text, cls, exp, rates.version)
                 for space, item in COV:
                     if 'pair' in space:
@@ -249,6 +261,8 @@ def run_shard(ctx):
                 res.cases += 1
                 res.note_rw(r)
                 res.count('class:' + cls)
+                if ops[idx].get('via_session'):
+                    res.count('evaluations_through_the_long_lived_session')
                 res.distinct.add(sep, version and (idx, ctx.shard, res.cases), text)
                 why = judge(slot, exp)
                 if why is None:
@@ -256,7 +270,7 @@ def run_shard(ctx):
                     if res.cases % 499 == 0:
                         res.sample({'separators': sep, 'rate_updates_before': version, 'text': text, 'observed': mon.describe(slot)})
                     continue
-                res.violation('money:%s%s' % (cls, ':after-updates' if version else ''), '%r (after %d rate updates): %s' % (text, version, why),
+                res.violation('money:%s%s%s' % (cls, ':after-updates' if version else '', ':session' if ops[idx].get('via_session') else ''), '%r (after %d rate updates%s): %s' % (text, version, ', through the re-used session' if ops[idx].get('via_session') else '', why),
                               {'config': cfg, 'lang': 'en', 'text': text, 'observed': mon.describe(slot),
                                'ops': [o for o in ops[:idx] if o['op'] not in ('execute', 'fingerprint')] + [ops[idx]]})
             else:
